@@ -134,3 +134,30 @@ Proof.
     { unfold getu. rewrite nth_map_seq' by exact Hr. cbn [plus]. rewrite Nat.eqb_refl. reflexivity. }
     rewrite G. cbn. repeat split; reflexivity.
 Qed.
+
+(** the stored boundary value is one of the two values the cell system supplied for the stored direction *)
+Lemma candidate_bound : forall pos vel Ls bmins bmaxs c,
+  In (Some c) (cb_candidates pos vel Ls bmins bmaxs) ->
+  (cb_dir c < length vel)%nat /\
+  (cb_bound c = nth (cb_dir c) bmins fnan \/ cb_bound c = nth (cb_dir c) bmaxs fnan).
+Proof.
+  intros pos vel Ls bmins bmaxs c H. unfold cb_candidates in H.
+  apply in_map_iff in H. destruct H as (d & E & Hd). apply in_seq in Hd.
+  unfold cb_candidate in E.
+  destruct (fne (nth d vel fnan) fzero); [|discriminate].
+  destruct (fgt (nth d vel fnan) fzero); inversion E; subst c; cbn [cb_dir cb_bound]; split; try lia; auto.
+Qed.
+
+Lemma chosen_bound : forall pos vel Ls bmins bmaxs c,
+  Forall cand_finite (cb_candidates pos vel Ls bmins bmaxs) ->
+  cb_choose pos vel Ls bmins bmaxs = Some c ->
+  (cb_dir c < length vel)%nat /\
+  (cb_bound c = nth (cb_dir c) bmins fnan \/ cb_bound c = nth (cb_dir c) bmaxs fnan) /\
+  forall c', In (Some c') (cb_candidates pos vel Ls bmins bmaxs) -> (B2R (cb_t c) <= B2R (cb_t c'))%R.
+Proof.
+  intros pos vel Ls bmins bmaxs c F H. unfold cb_choose in H.
+  destruct (flt (cb_t (fold_left cb_better (cb_candidates pos vel Ls bmins bmaxs) cb_start)) finf) eqn:L; [|discriminate].
+  inversion H; subst c; clear H.
+  destruct (choose_earliest _ _ F eq_refl L) as [I M].
+  destruct (candidate_bound _ _ _ _ _ _ I) as [A B]. split; [exact A|]. split; [exact B|exact M].
+Qed.
